@@ -93,3 +93,141 @@ Proof.
   specialize (H tag Hin). apply andb_true_iff in H. destruct H as [H1 H2].
   apply multiassign_fixed_never_collides; [exact H1 | destruct (ends_underscore tag); [discriminate H2 | reflexivity]].
 Qed.
+
+(* ======================================================================================== *)
+(* The rule in force since /repo 156ba8a + e4a742c:
+     MultiAssignTransformer:  name = "_" + var + str(i);  while reserved(name) or name in used: name = "_" + name
+     get_unique_var:          name = "_" + tag + str(counter++); while name in reserved: next counter
+   [avoid] = identifiers of the program text + variables of the program.  Both loops are
+   modelled with fuel = number of names to avoid (each failed attempt rules one of them out). *)
+Definition mem_str (s : string) (l : list string) : bool := existsb (String.eqb s) l.
+Lemma mem_str_In s l : mem_str s l = true <-> In s l.
+Proof.
+  unfold mem_str. rewrite existsb_exists. split.
+  - intros [x [Hin He]]. apply String.eqb_eq in He. subst. exact Hin.
+  - intros H. exists s. split; [exact H | apply String.eqb_refl].
+Qed.
+Lemma mem_str_remove_neq s nm l : s <> nm -> mem_str s (remove string_dec nm l) = mem_str s l.
+Proof.
+  intros Hne. destruct (mem_str s l) eqn:E.
+  - apply mem_str_In. apply mem_str_In in E. apply in_in_remove; assumption.
+  - destruct (mem_str s (remove string_dec nm l)) eqn:E'; [|reflexivity].
+    apply mem_str_In in E'. apply in_remove in E'. destruct E' as [E' _].
+    apply mem_str_In in E'. rewrite E' in E. discriminate.
+Qed.
+
+Fixpoint prefix_until (avoid : list string) (fuel : nat) (nm : string) : string :=
+  match fuel with
+  | O => nm
+  | S f => if mem_str nm avoid then prefix_until avoid f ("_" ++ nm) else nm
+  end.
+Definition version_name (avoid : list string) (var : string) (i : nat) : string :=
+  prefix_until avoid (List.length avoid) (ma_name var i).
+
+Lemma length_prefix_until avoid : forall fuel x, String.length x <= String.length (prefix_until avoid fuel x).
+Proof.
+  induction fuel as [|f IH]; intros x; cbn [prefix_until]; [apply Nat.le_refl|].
+  destruct (mem_str x avoid); [|apply Nat.le_refl].
+  eapply Nat.le_trans; [|apply IH]. cbn [append String.length]. apply Nat.le_succ_diag_r.
+Qed.
+
+Lemma prefix_until_remove avoid nm : forall fuel x, String.length nm < String.length x ->
+  prefix_until avoid fuel x = prefix_until (remove string_dec nm avoid) fuel x.
+Proof.
+  induction fuel as [|f IH]; intros x Hl; cbn [prefix_until]; [reflexivity|].
+  assert (Hne : x <> nm) by (intros ->; exact (Nat.lt_irrefl _ Hl)).
+  rewrite (mem_str_remove_neq x nm avoid Hne).
+  destruct (mem_str x avoid); [|reflexivity].
+  apply IH. cbn [append String.length]. apply Nat.lt_lt_succ_r. exact Hl.
+Qed.
+
+Lemma prefix_until_fresh : forall fuel avoid nm, List.length avoid <= fuel -> ~ In (prefix_until avoid fuel nm) avoid.
+Proof.
+  induction fuel as [|f IH]; intros avoid nm Hl.
+  - destruct avoid; [intros [] | cbn in Hl; inversion Hl].
+  - cbn [prefix_until]. destruct (mem_str nm avoid) eqn:E.
+    + apply mem_str_In in E.
+      assert (Hlt : String.length nm < String.length ("_" ++ nm)) by (cbn [append String.length]; apply Nat.lt_succ_diag_r).
+      rewrite (prefix_until_remove avoid nm f _ Hlt).
+      assert (Hl' : List.length (remove string_dec nm avoid) <= f).
+      { pose proof (remove_length_lt string_dec avoid nm E) as H. apply Nat.lt_succ_r. eapply Nat.lt_le_trans; [exact H | exact Hl]. }
+      specialize (IH (remove string_dec nm avoid) ("_" ++ nm) Hl').
+      intros Hin. apply IH. apply in_in_remove; [|exact Hin].
+      intros Heq. pose proof (length_prefix_until (remove string_dec nm avoid) f ("_" ++ nm)) as Hge.
+      rewrite Heq in Hge. exact (Nat.lt_irrefl _ (Nat.lt_le_trans _ _ _ Hlt Hge)).
+    + intros Hin. apply mem_str_In in Hin. rewrite Hin in E. discriminate.
+Qed.
+
+(* a version name is never an identifier of the program text nor an existing variable *)
+Theorem version_name_avoids avoid var i : ~ In (version_name avoid var i) avoid.
+Proof. apply prefix_until_fresh. apply Nat.le_refl. Qed.
+
+Fixpoint unique_var (reserved : list string) (fuel : nat) (tag : string) (k : nat) : string * nat :=
+  match fuel with
+  | O => (gen_name tag k, S k)
+  | S f => if mem_str (gen_name tag k) reserved then unique_var reserved f tag (S k) else (gen_name tag k, S k)
+  end.
+
+Lemma unique_var_shape reserved tag : forall fuel k, exists k', k <= k' /\ unique_var reserved fuel tag k = (gen_name tag k', S k').
+Proof.
+  induction fuel as [|f IH]; intros k; cbn [unique_var]; [exists k; split; [apply Nat.le_refl | reflexivity]|].
+  destruct (mem_str (gen_name tag k) reserved); [|exists k; split; [apply Nat.le_refl | reflexivity]].
+  destruct (IH (S k)) as [k' [Hle He]]. exists k'. split; [apply Nat.le_trans with (S k); [apply Nat.le_succ_diag_r | exact Hle] | exact He].
+Qed.
+
+Lemma unique_var_remove reserved tag k0 : forall fuel k, k0 < k ->
+  unique_var reserved fuel tag k = unique_var (remove string_dec (gen_name tag k0) reserved) fuel tag k.
+Proof.
+  induction fuel as [|f IH]; intros k Hlt; cbn [unique_var]; [reflexivity|].
+  assert (Hne : gen_name tag k <> gen_name tag k0).
+  { intros H. apply gen_name_injective in H. subst. exact (Nat.lt_irrefl _ Hlt). }
+  rewrite (mem_str_remove_neq _ _ reserved Hne).
+  destruct (mem_str (gen_name tag k) reserved); [|reflexivity].
+  apply IH. apply Nat.lt_lt_succ_r. exact Hlt.
+Qed.
+
+Lemma unique_var_fresh tag : forall fuel reserved k, List.length reserved <= fuel -> ~ In (fst (unique_var reserved fuel tag k)) reserved.
+Proof.
+  induction fuel as [|f IH]; intros reserved k Hl.
+  - destruct reserved; [intros [] | cbn in Hl; inversion Hl].
+  - cbn [unique_var]. destruct (mem_str (gen_name tag k) reserved) eqn:E.
+    + apply mem_str_In in E.
+      rewrite (unique_var_remove reserved tag k f (S k) (Nat.lt_succ_diag_r k)).
+      assert (Hl' : List.length (remove string_dec (gen_name tag k) reserved) <= f).
+      { pose proof (remove_length_lt string_dec reserved _ E) as H. apply Nat.lt_succ_r. eapply Nat.lt_le_trans; [exact H | exact Hl]. }
+      specialize (IH (remove string_dec (gen_name tag k) reserved) (S k) Hl').
+      intros Hin. apply IH. apply in_in_remove; [|exact Hin].
+      destruct (unique_var_shape (remove string_dec (gen_name tag k) reserved) tag f (S k)) as [k' [Hle He]].
+      rewrite He. cbn [fst]. intros H. apply gen_name_injective in H. subst k'. exact (Nat.nle_succ_diag_l _ Hle).
+    + cbn [fst]. intros Hin. apply mem_str_In in Hin. rewrite Hin in E. discriminate.
+Qed.
+
+(* get_unique_var never returns a reserved name, and the counter moves on *)
+Theorem unique_var_avoids reserved tag k :
+  ~ In (fst (unique_var reserved (List.length reserved) tag k)) reserved /\ k < snd (unique_var reserved (List.length reserved) tag k).
+Proof.
+  split; [apply unique_var_fresh; apply Nat.le_refl|].
+  destruct (unique_var_shape reserved tag (List.length reserved) k) as [k' [Hle He]]. rewrite He. cbn [snd].
+  apply Nat.lt_succ_r. exact Hle.
+Qed.
+
+(* the gap that remains under the committed rule: version names are not registered, so a name
+   handed out LATER by get_unique_var can equal a version name — for exactly one counter value *)
+Theorem version_then_counter_collision_refuted :
+  ~ (forall avoid reserved var i tag k,
+       (forall x, In x reserved -> In x avoid) ->
+       fst (unique_var reserved (List.length reserved) tag k) <> version_name avoid var i).
+Proof.
+  intros H. apply (H ["r"; "f"; "g"; "x"; "_old0"] ["r"; "f"; "g"; "x"] "r" 1 "r" 1).
+  - intros x Hx. cbn in *. tauto.
+  - vm_compute. reflexivity.
+Qed.
+
+(* with the version names registered as reserved (proposed one-line repair) no later counter
+   name equals a version name, whatever the counter *)
+Theorem reserved_versions_never_collide avoid reserved var i tag k :
+  In (version_name avoid var i) reserved ->
+  fst (unique_var reserved (List.length reserved) tag k) <> version_name avoid var i.
+Proof.
+  intros Hin Heq. apply (proj1 (unique_var_avoids reserved tag k)). rewrite Heq. exact Hin.
+Qed.
